@@ -377,7 +377,12 @@ func (c *ExecCtx) assignTo(st *State, lhs ast.Expr, v Val) {
 			nv = r
 		}
 		if len(chain) > 0 {
+			saved := u.fieldWrite
+			if _, isIdent := ast.Unparen(x.X).(*ast.Ident); isIdent && len(chain) >= 1 && u.elemWrite == 0 {
+				u.fieldWrite = chainIdx[0]
+			}
 			c.assignTo(st, x.X, Val{nv, chain[0].Ty})
+			u.fieldWrite = saved
 		}
 	case *ast.IndexExpr:
 		base := c.eval(st, x.X)
@@ -789,7 +794,7 @@ func (c *ExecCtx) loopSpecFor(node ast.Node, rangeX ast.Expr) (*LoopSpec, string
 func (c *ExecCtx) dryRun(st *State, body func(*State) []*State) *recorder {
 	u := c.u
 	saved := u.recording
-	rec := &recorder{vars: map[types.Object]bool{}, heaps: map[string]bool{}, ghost: map[string]bool{}, refs: map[string][]*Term{}, whole: map[string]bool{}, startSym: u.eng.nsym, elemOnly: map[types.Object]bool{}, fullVar: map[types.Object]bool{}}
+	rec := &recorder{vars: map[types.Object]bool{}, heaps: map[string]bool{}, ghost: map[string]bool{}, refs: map[string][]*Term{}, whole: map[string]bool{}, startSym: u.eng.nsym, elemOnly: map[types.Object]bool{}, fullVar: map[types.Object]bool{}, fieldOnly: map[types.Object]map[int]bool{}}
 	u.recording = rec
 	u.quiet++
 	savedLoops := c.loops
@@ -830,6 +835,16 @@ func (c *ExecCtx) dryRun(st *State, body func(*State) []*State) *recorder {
 		for k := range rec.fullVar {
 			if saved.fullVar != nil {
 				saved.fullVar[k] = true
+			}
+		}
+		for k, fs := range rec.fieldOnly {
+			if saved.fieldOnly != nil {
+				if saved.fieldOnly[k] == nil {
+					saved.fieldOnly[k] = map[int]bool{}
+				}
+				for f := range fs {
+					saved.fieldOnly[k][f] = true
+				}
 			}
 		}
 	}
@@ -886,6 +901,15 @@ func (c *ExecCtx) havocRec(st *State, rec *recorder) {
 		if rec.elemOnly[obj] && !rec.fullVar[obj] {
 			if _, ok := unalias(obj.Type()).Underlying().(*types.Slice); ok {
 				st.assumeT(And(Eq(slLen(t), slLen(cur)), Eq(slCap(t), slCap(cur)), Eq(slNil(t), slNil(cur))))
+			}
+		}
+		if fs := rec.fieldOnly[obj]; len(fs) > 0 && !rec.fullVar[obj] && !rec.elemOnly[obj] {
+			if _, stt := structOf(obj.Type()); stt != nil && u.eng.tm.isTransparentStruct(obj.Type()) {
+				for j := 0; j < stt.NumFields(); j++ {
+					if !fs[j] {
+						st.assumeT(Eq(u.eng.tm.FieldGet(t, obj.Type(), j), u.eng.tm.FieldGet(cur, obj.Type(), j)))
+					}
+				}
 			}
 		}
 	}
@@ -1027,6 +1051,14 @@ func (c *ExecCtx) runLoop(st *State, node ast.Node, label string, ls *LoopSpec, 
 	}
 	for k := range rec1.elemOnly {
 		rec.elemOnly[k] = true
+	}
+	for k, fs := range rec1.fieldOnly {
+		if rec.fieldOnly[k] == nil {
+			rec.fieldOnly[k] = map[int]bool{}
+		}
+		for f := range fs {
+			rec.fieldOnly[k][f] = true
+		}
 	}
 
 	evalInvMode := false
